@@ -213,7 +213,7 @@ def render_program(prog, layout, rng):
     comments = layout % 4 in (0, 2) and nl != " "
     if comments and layout % 8 == 2:
         # comments inside and after statements (never containing `);` or `endmodule`)
-        body = [b.replace("(", "( /* c */", 1) + " // trailing comment , with ( tokens = inside" for b in body]
+        body = [b[:-1] + " /* c */ ;" + " // trailing comment , with ( tokens = inside" for b in body]
         decl = [d + " /* after ; */" for d in decl]
     lines.append(f"module {prog['name']}{sp}({sp}" + f"{sp},{sp}".join(ident(p) for p in ports) + f"{sp});")
     if comments:
@@ -230,7 +230,7 @@ def render_program(prog, layout, rng):
 POOLS = {
     "plain": dict(ins=["a", "b", "c", "d"], nets=["w%d", "n%d"], outs=["y%d"]),
     "synthetic": dict(ins=["a", "b", "not_a", "and_a_b"], nets=["xor_a_b", "or_a_b", "not_b", "and_b_a", "xnor_a_b", "not_not_a", "and_a_b_0", "mux_o_a_b_not_a", "or_not_a_b", "g_%d"], outs=["y%d", "not_and_a_b"]),
-    "escaped": dict(ins=["\\a[0]", "\\b+c", "c"], nets=["\\w[%d]", "n%d"], outs=["\\y[%d]", "z%d"]),
+    "escaped": dict(ins=["\\a[0]", "\\b+c", "\\d,en", "c"], nets=["\\w[%d]", "n%d", "\\n%d;x", "\\p(%d)"], outs=["\\y[%d]", "z%d"]),
     "ties": dict(ins=["a", "tie_0", "tie1", "tie_1"], nets=["w%d", "tie_x", "tie0", "tie_0_0"], outs=["y%d"]),
 }
 BOXES = {"ff": (["clk", "d"], ["q"]), "box": (["p", "r"], ["y", "z"])}
